@@ -501,3 +501,61 @@ func immutableCoverage(P *Program, CS *Contracts, prop string) []string {
 	}
 	return out
 }
+
+// atomicCoverage: every field declared "atomic" must exist and have a sync/atomic type (value or pointer).
+func atomicCoverage(P *Program, CS *Contracts, prop string) []string {
+	var out []string
+	var keys []string
+	for k, props := range CS.Atomics {
+		if hasProp(props, prop) {
+			keys = append(keys, k)
+		}
+	}
+	sort.Strings(keys)
+	for _, k := range keys {
+		i := strings.LastIndex(k, ".")
+		if i < 0 {
+			out = append(out, fmt.Sprintf("atomic %s: expected pkg.Type.field", k))
+			continue
+		}
+		tname, fname := k[:i], k[i+1:]
+		var st *types.Struct
+		for _, p := range P.Prog.AllPackages() {
+			if !P.isZapPkg(p.Pkg) {
+				continue
+			}
+			j := strings.LastIndex(tname, ".")
+			if j < 0 || shortPath(p.Pkg.Path()) != tname[:j] {
+				continue
+			}
+			if obj := p.Pkg.Scope().Lookup(tname[j+1:]); obj != nil {
+				if s, ok := obj.Type().Underlying().(*types.Struct); ok {
+					st = s
+				}
+			}
+		}
+		if st == nil {
+			out = append(out, fmt.Sprintf("atomic %s: struct type %s not found", k, tname))
+			continue
+		}
+		found := false
+		for f := 0; f < st.NumFields(); f++ {
+			if st.Field(f).Name() != fname {
+				continue
+			}
+			found = true
+			ft := st.Field(f).Type()
+			if pt, ok := ft.(*types.Pointer); ok {
+				ft = pt.Elem()
+			}
+			n, ok := ft.(*types.Named)
+			if !ok || n.Obj().Pkg() == nil || n.Obj().Pkg().Path() != "sync/atomic" {
+				out = append(out, fmt.Sprintf("%s is shared between goroutines without a lock but its type %s is not a sync/atomic type", k, typeString(st.Field(f).Type())))
+			}
+		}
+		if !found {
+			out = append(out, fmt.Sprintf("atomic %s: no such field", k))
+		}
+	}
+	return out
+}
